@@ -143,6 +143,10 @@ type item struct {
 	src   string // the bytes that painted it (for messages)
 	note  string // interpreter remarks used for classification
 	alt   *region
+	// knocksOutPrev: this item and the previous one are the stroke and the fill of one PDF
+	// fill-and-stroke operator painted with alpha < 1: they form a knockout group (ISO 32000-1
+	// 11.7.4.4), i.e. where the stroke paints, the fill of the same object does not show
+	knocksOutPrev bool
 }
 
 type displayList struct {
@@ -295,8 +299,12 @@ func composite(items []item) [][4]float64 {
 	for k := range items {
 		it := &items[k]
 		in := itemInside(it)
+		var ko *bits
+		if k+1 < len(items) && items[k+1].knocksOutPrev {
+			ko = itemInside(&items[k+1])
+		}
 		for i := range samples {
-			if !in.get(i) {
+			if !in.get(i) || (ko != nil && ko.get(i)) {
 				continue
 			}
 			c, ok := it.paint.at(samples[i])
